@@ -33,6 +33,9 @@ for i in ids:
         for p in BYFILE.get(f, []):
             if p not in props:
                 props.append(p)
+    # BENIGN_MAX_PROPS=n: the property the change was written against and the first n-1 others
+    if os.environ.get("BENIGN_MAX_PROPS"):
+        props = props[:int(os.environ["BENIGN_MAX_PROPS"])]
     subprocess.run(["git", "-C", M, "checkout", "--", "."], check=True)
     r = subprocess.run(["git", "-C", M, "apply", os.path.join(d, "patch.diff")], capture_output=True, text=True)
     if r.returncode != 0:
